@@ -157,7 +157,7 @@ func (r *mapReadBucketCloser) Get(ctx context.Context, path string) (ReadObjectC
 	if err != nil {
 		return nil, err
 	}
-	return replaceReadObjectCloserPath(readObjectCloser, path), nil
+	return replaceReadObjectCloserPath(readObjectCloser, normalpath.Normalize(path)), nil
 }
 
 func (r *mapReadBucketCloser) Stat(ctx context.Context, path string) (ObjectInfo, error) {
@@ -170,7 +170,7 @@ func (r *mapReadBucketCloser) Stat(ctx context.Context, path string) (ObjectInfo
 	if err != nil {
 		return nil, err
 	}
-	return replaceObjectInfoPath(objectInfo, path), nil
+	return replaceObjectInfoPath(objectInfo, normalpath.Normalize(path)), nil
 }
 
 func (r *mapReadBucketCloser) Walk(ctx context.Context, prefix string, f func(ObjectInfo) error) error {
